@@ -221,7 +221,8 @@ func sync_runtime_notifyListAdd(l *notifyList) uint32 {
 func sync_runtime_notifyListWait(l *notifyList, t uint32) {
 	st := getNotifyState(l)
 	st.mu.Lock()
-	for latomic.LoadUint32(&l.notify) == t {
+	// Wait until ticket t has been notified, i.e. t < notify (wrap-around safe).
+	for int32(t-latomic.LoadUint32(&l.notify)) >= 0 {
 		st.cond.Wait(&st.mu)
 	}
 	st.mu.Unlock()
@@ -242,7 +243,9 @@ func sync_runtime_notifyListNotifyOne(l *notifyList) {
 	st.mu.Lock()
 	if latomic.LoadUint32(&l.notify) != latomic.LoadUint32(&l.wait) {
 		latomic.AddUint32(&l.notify, 1)
-		st.cond.Signal()
+		// All tickets share one condition variable: wake everyone so that the
+		// notified ticket is certain to re-check.
+		st.cond.Broadcast()
 	}
 	st.mu.Unlock()
 }
